@@ -288,10 +288,14 @@ class Inc:
 
 
 class Exec:
-    def __init__(self, plan, record_lines=False, keep_events=False):
+    def __init__(self, plan, record_lines=False, keep_events=False,
+                 only_first=False, real_kill=False, root=None):
         self.plan = plan
         self.knobs = plan['knobs']
         self.sim = Sim(plan['seed'], keep_events=keep_events)
+        self.sim.real_kill = real_kill
+        self.only_first = only_first
+        self.root = root
         self.record_lines = record_lines
         self.violations = []
         self.M = {}                   # last completed save: ident -> seq
@@ -416,7 +420,8 @@ class Exec:
     def run(self):
         import panqec.simulation._batch_simulation as bsm
         sim = self.sim
-        self.sb = sbx.Sandbox(sim, bufsize=self.knobs['bufsize'])
+        self.sb = sbx.Sandbox(sim, bufsize=self.knobs['bufsize'],
+                              root=self.root)
         sub = 'results' if self.knobs['subdir'] else ''
         self.out = self.sb.path(sub, 'out' + self.knobs['ext']) if sub \
             else self.sb.path('out' + self.knobs['ext'])
@@ -461,12 +466,17 @@ class Exec:
             seams.uninstall_clock()
             seams.uninstall_entropy()
             kernel.set_current(None)
-            self.sb.destroy()
+            if self.root is None:
+                self.sb.destroy()
+            else:
+                self.sb.uninstall()
         return self.outcome()
 
     def _run_steps(self, captured):
         sim = self.sim
         steps = self.plan['steps']
+        if self.only_first:
+            steps = steps[:1]
         prev = None
         for idx, step in enumerate(steps):
             mode = step.get('mode', 'new')
@@ -639,6 +649,50 @@ class Exec:
 
 def execute(plan, record_lines=False, keep_events=False):
     return Exec(plan, record_lines, keep_events).run()
+
+
+def _tree_bytes(root):
+    out = {}
+    for d, _, files in os.walk(root):
+        for fn in files:
+            p = os.path.join(d, fn)
+            with sbx._real_open(p, 'rb') as f:
+                out[p[len(root):]] = digest(f.read())
+    return out
+
+
+def crossval_real_kill(plan):
+    """Crash-model fidelity: the first incarnation of the plan is executed
+    (a) in process with the simulated kill and (b) in a forked child that
+    really calls os._exit(137) at the same event; the bytes left in the
+    sandbox must be identical.  Returns (same?, detail)."""
+    import shutil
+    import tempfile
+    res = []
+    for real in (False, True):
+        root = tempfile.mkdtemp(prefix='dst-xv-', dir='/dev/shm')
+        try:
+            if not real:
+                Exec(plan, only_first=True, root=root).run()
+                status = None
+            else:
+                pid = os.fork()
+                if pid == 0:
+                    code = 0
+                    try:
+                        Exec(plan, only_first=True, real_kill=True,
+                             root=root).run()
+                    except BaseException:   # noqa
+                        code = 3
+                    os._exit(code)
+                _, st = os.waitpid(pid, 0)
+                status = os.waitstatus_to_exitcode(st)
+            res.append((_tree_bytes(root), status))
+        finally:
+            shutil.rmtree(root, ignore_errors=True)
+    same = res[0][0] == res[1][0]
+    return same, {'in_process': res[0][0], 'forked': res[1][0],
+                  'child_exit': res[1][1]}
 
 
 # ---------------------------------------------------------------------------
@@ -926,11 +980,56 @@ JOB_TIMEOUT = 900
 def make_jobs(tier, seed):
     n = 96 if tier == 'quick' else 1200
     budget = 130 if tier == 'quick' else 1500
-    return [{'wseed': H(seed, PROP, 'w', i), 'tier': tier, 'budget': budget}
+    jobs = [{'wseed': H(seed, PROP, 'w', i), 'tier': tier, 'budget': budget}
             for i in range(n)]
+    n_xv = 48 if tier == 'quick' else 960
+    xv = [{'kind': 'xv', 'seeds': [H(seed, PROP, 'xv', b * 6 + i)
+                                   for i in range(6)]}
+          for b in range(n_xv // 6)]
+    # interleave so that the cross-validation is not starved by the budget
+    step = max(1, len(jobs) // max(1, len(xv)))
+    out = []
+    for i, j in enumerate(jobs):
+        if i % step == 0 and xv:
+            out.append(xv.pop())
+        out.append(j)
+    return out + xv
 
 
-run_job = explore_workload
+def run_xv(job):
+    """Crash-model cross-validation block (see crossval_real_kill)."""
+    summ = {'wseed': None, 'runs': 0, 'violations': [], 'states': [],
+            'fault_counts': {}, 'probes': {}, 'saves': 0, 'trials': 0,
+            'sim_seconds': 0.0, 'complete': False, 'sample': None,
+            'fingerprints': [], 'n_faults_total': 0,
+            'xv': {'plans': 0, 'identical': 0, 'child_really_killed': 0,
+                   'mismatch': []}}
+    for s_ in job['seeds']:
+        rng = stream(s_, 'xv')
+        base = gen_workload(s_)
+        f = rng.choice([
+            {'kind': 'kill', 'at': 'io', 'event': rng.randrange(0, 60),
+             'tear': rng.choice(sbx.TEAR_CLASSES)},
+            {'kind': 'kill', 'at': 'io', 'event': rng.randrange(0, 12),
+             'tear': rng.choice(sbx.TEAR_CLASSES)},
+            {'kind': 'kill', 'at': 'trial', 'event': rng.randrange(0, 4)},
+            {'kind': 'kill', 'at': 'line', 'event': rng.randrange(50, 700)},
+        ])
+        plan = with_fault(base, 0, f)
+        same, d = crossval_real_kill(plan)
+        x = summ['xv']
+        x['plans'] += 1
+        x['identical'] += 1 if same else 0
+        x['child_really_killed'] += 1 if d['child_exit'] == 137 else 0
+        if not same and len(x['mismatch']) < 3:
+            x['mismatch'].append({'fault': f, 'detail': d})
+    return summ
+
+
+def run_job(job):
+    if job.get('kind') == 'xv':
+        return run_xv(job)
+    return explore_workload(job)
 
 
 def determinism_plans(seed, n):
@@ -956,10 +1055,17 @@ def new_aggregate():
     return {'runs': 0, 'workloads': 0, 'complete': 0, 'violations': [],
             'states': set(), 'fault_counts': {}, 'probes': {}, 'saves': 0,
             'trials': 0, 'sim_seconds': 0.0, 'samples': [],
-            'faults_enumerable': 0}
+            'faults_enumerable': 0,
+            'xv': {'plans': 0, 'identical': 0, 'child_really_killed': 0,
+                   'mismatch': []}}
 
 
 def aggregate(agg, r):
+    if 'xv' in r:
+        for k in ('plans', 'identical', 'child_really_killed'):
+            agg['xv'][k] += r['xv'][k]
+        agg['xv']['mismatch'] += r['xv']['mismatch']
+        return
     agg['runs'] += r['runs']
     agg['workloads'] += 1
     agg['complete'] += 1 if r['complete'] else 0
@@ -1005,6 +1111,14 @@ def evidence(tier, agg, wall):
         'completed_saves_judged': agg['saves'],
         'faults_fired': dict(sorted(agg['fault_counts'].items())),
         'reach_probes': dict(sorted(agg['probes'].items())),
+        'crash_model_cross_validation': {
+            'what': 'first incarnation executed in process (simulated kill) '
+                    'and in a forked child that really calls os._exit(137) '
+                    'at the same event; sandbox bytes compared',
+            'plans': agg['xv']['plans'],
+            'identical': agg['xv']['identical'],
+            'child_really_killed': agg['xv']['child_really_killed'],
+            'mismatches': agg['xv']['mismatch'][:3]},
         'real_vs_stub': {
             'real': ['panqec.simulation.read_input_dict / run_file',
                      'panqec.cli run (click)', 'BatchSimulation',
@@ -1029,3 +1143,13 @@ def evidence(tier, agg, wall):
         'a stopped incarnation is judged only on what it left on disk',
     ]
     return 'fault_enumeration', cov, assumptions
+
+
+def harness_problems(agg):
+    """A disagreement between the simulated and the real kill is a defect of
+    the simulator, never a verdict on panqec."""
+    x = agg['xv']
+    if x['plans'] != x['identical']:
+        return ['crash-model cross-validation mismatch: ' +
+                canon(x['mismatch'])[:1500]]
+    return []
